@@ -211,8 +211,8 @@ def run_ill(case, Regex, MisformedRegexError, failures):
 
 
 def health(classes, n, tier):
-    need = {"precedence_decides": 0.15, "label:ill": 0.05, "label:ok": 0.02, "label:grey": 0.01,
-            "escaped_operator_symbol": 0.05, "has_epsilon": 0.05, "op:star": 0.15}
+    need = {"precedence_decides": 0.06, "label:ill": 0.02, "label:ok": 0.008, "label:grey": 0.004,
+            "escaped_operator_symbol": 0.02, "has_epsilon": 0.02, "op:star": 0.06}
     for k, frac in need.items():
         if classes.get(k, 0) < frac * n:
             return "class %s too rare: %d of %d" % (k, classes.get(k, 0), n)
